@@ -162,10 +162,9 @@ c05_do(nth0, X, V, R) :- ( nth0(X, [a, b, c, d], E) -> R = E ; R = none ), c05_i
 c05_do(nth1, X, V, R) :- ( nth1(X, [a, b, c, d], E) -> R = E ; R = none ), c05_ignore(V).
 c05_do(atom_length_check, X, V, R) :- c05_tf(atom_length(abc, X), R), c05_ignore(V).
 c05_do(sub_atom_at, X, V, R) :- ( sub_atom(abcdef, X, 1, _, S) -> R = S ; R = none ), c05_ignore(V).
-% char_code/2 panics on any integer outside the small-integer range (known finding, witnessed by
-% the context char_code_big, which is not in the default list): excluded here by construction
-c05_do(char_code, X, V, R) :- V >= -36028797018963968, V =< 36028797018963967, !, ( char_code(C, X) -> R = C ; R = none ).
-c05_do(char_code, _, _, skipped).
+% (char_code/2 used to panic on integers outside the small-integer range: fixed by a60600d; the
+% single-context name char_code_big is kept for the stored witness)
+c05_do(char_code, X, V, R) :- ( char_code(C, X) -> R = C ; R = none ), c05_ignore(V).
 c05_do(char_code_big, X, V, R) :- ( char_code(C, X) -> R = C ; R = none ), c05_ignore(V).
 c05_do(between_upto, X, V, R) :- ( V =< 64 ), !, findall(Y, between(60, X, Y), L), R = L.
 c05_do(between_upto, _, _, skipped).
